@@ -146,6 +146,37 @@ pub fn run(ctx: &Ctx) -> i32 {
             }
         });
     }
+    // 2d. long strings of non-ASCII characters: payload lengths on both sides of every multiple of
+    //     250 bytes (the Base256 length field changes its form there) up to the largest symbol
+    {
+        let units: Vec<&str> = vec!["é", "Б", "€", "😀", "\u{80}", "éa", "ÿ\u{A0}"];
+        let mut cases: Vec<String> = Vec::new();
+        for u in &units {
+            // payload bytes per unit: Latin-1 strings are written as Latin-1 bytes, the others as UTF-8
+            let latin1 = u.chars().all(|c| (c as u32) < 256 && charset::latin1(c as u32 as u8).is_some());
+            let per = if latin1 { u.chars().count() } else { u.len() };
+            for m in 1..=6usize {
+                for d in -3i64..=3 {
+                    let bytes = (250 * m) as i64 + d;
+                    let k = (bytes as usize + per - 1) / per;
+                    for pre in ["", "A", "12"] {
+                        let mut t = String::from(pre);
+                        for _ in 0..k {
+                            t.push_str(u);
+                        }
+                        cases.push(t);
+                    }
+                }
+            }
+        }
+        cases.sort();
+        cases.dedup();
+        ctx.par(cases.len() as u64, |c, w| {
+            let t = &cases[c as usize];
+            w.label(|| format!("long non-ASCII string {} bytes", t.len()));
+            w.check(t.len() as u64, || sdesc(t), |st| eval_str(t, st));
+        });
+    }
     // 3. strings of length 2..3 around the Latin-1 boundaries
     let edge: Vec<char> = [0x1Fu32, 0x20, 0x7E, 0x7F, 0x9F, 0xA0, 0xFF, 0x100].iter().map(|u| char::from_u32(*u).unwrap()).collect();
     ctx.seq(|w| {
@@ -190,7 +221,7 @@ pub fn run(ctx: &Ctx) -> i32 {
         "evaluations": ctx.evaluations(),
         "distinct_nontrivial": ctx.counter("nontrivial"),
         "rule": format!("every Unicode scalar value (1,112,064) as a one-character string through encode_str -> data_codewords -> decode_str, and through utf8_to_latin1; all strings over a 12-character class alphabet \
-(ASCII letters/digit, RS, EOT, e-acute, U+0080, euro, emoji, ~, NBSP, DEL) of length <= {} and over 24 characters of length <= {}, each (up to length 3) also inside the macro 05/06 envelope (length <= 3); every scalar value (quick tier: the whole BMP plus, in the astral planes, the first and last 64 scalars of every 4096-block and every scalar whose low six bits are 0, 0x1F or 0x3F; thorough tier: all of them) isolated between two runs of upper-case letters, of lower-case letters and of digits; a length sweep (runs of 0..130 characters of five classes followed by one of 12 final characters, plain and inside the macro 05 envelope); all strings of length 2..3 over the Latin-1 boundary characters; \
+(ASCII letters/digit, RS, EOT, e-acute, U+0080, euro, emoji, ~, NBSP, DEL) of length <= {} and over 24 characters of length <= {}, each (up to length 3) also inside the macro 05/06 envelope (length <= 3); every scalar value (quick tier: the whole BMP plus, in the astral planes, the first and last 64 scalars of every 4096-block and every scalar whose low six bits are 0, 0x1F or 0x3F; thorough tier: all of them) isolated between two runs of upper-case letters, of lower-case letters and of digits; long strings of seven non-ASCII units with payload lengths 250m-3..250m+3 bytes (m = 1..6), bare and after \"A\" / \"12\"; a length sweep (runs of 0..130 characters of five classes followed by one of 12 final characters, plain and inside the macro 05 envelope); all strings of length 2..3 over the Latin-1 boundary characters; \
 latin1_to_utf8 on all 256 bytes and 65,536 pairs against ISO 8859-1 by rule, utf8_to_latin1 as its inverse. Oracle: round trip; printable Latin-1 => no ECI and Latin-1 bytes (reference decoder R5); otherwise exactly one UTF-8 designator (241 27) first (after a macro codeword) and UTF-8 payload. \
 All cases distinct; non-trivial = UTF-8/ECI path taken or helper defined.", ctx.tier.pick(5, 6), ctx.tier.pick(3, 4)),
         "exhaustive": true,
